@@ -232,6 +232,8 @@ def checkTour (c : Case) : VM Unit := do
     | _ => pure ()
     if let some nr := newReg then regs := nr :: regs
   vstat "tour.ops" nOps
+  vstat "c09.networks" 1
+  vstat "c09.nethyps" (if netHypsB nw then 1 else 0)
   vstat "tour.changed" nChanged
   vstat "tour.insert-ties" nInsertTies
 
